@@ -134,6 +134,8 @@ def run(rep):
     anyimage(rep, fns)
     stored_parameters(rep, fns)
     forwarded_defaults(rep, fns)
+    results_kept(rep, fns)
+    rep.floor("obligations:D7", 4)
     rep.floor("obligations:D1", 40)
     rep.floor("obligations:D2", 60)
     rep.floor("rule:D2-factory", 30)
@@ -270,6 +272,33 @@ def forwarding(rep, fns):
             rep.count("obligations:D1")
             (rep.ok("D1-functor", "for_each_pixel_fn::operator()" + f["full"][-10:], cs) if cs == ["for_each_pixel($0,fun_)"] else
              rep.violation("D1-functor", "D1:for_each_pixel_fn::operator()", R.fn_where(f), {"calls": cs}))
+
+
+def results_kept(rep, fns):
+    rep.rule("D7 in the dynamic_image extension no value returned by the concrete algorithm (or by the visit that runs it) is discarded by a function that itself returns a value: "
+             "`for_each_pixel(view, fun_); return fun_;` hands back the functor that was never applied (the concrete algorithm takes it by value and returns the copy it used)")
+    TRANSPARENT = ("Paren", "ImplicitCast", "ExprWithCleanups", "Cleanups", "MaterializeTemporary", "BindTemporary")
+    for f in fns:
+        if "extension/dynamic_image" not in f.get("file", "") or f.get("body") is None or (f.get("ret") or "void").strip() == "void":
+            continue
+        nm = f["name"].replace("boost::gil::", "")
+        for c, pth in R.find(f["body"], lambda x: x.get("k") == "Call" and isinstance(x.get("callee"), dict)):
+            cn = c["callee"].get("name", "")
+            short = cn.split("::")[-1]
+            if not (cn.startswith("boost::gil::") and short in ALGOS) and cn not in ("boost::variant2::visit", "boost::gil::apply_operation"):
+                continue
+            if (c["callee"].get("ret") or c.get("type") or "void").strip() == "void" or (c.get("type") or "").strip() == "void":
+                continue
+            anc = [a for a, _, _ in pth if a.get("k") not in TRANSPARENT]
+            parent = anc[-1] if anc else None
+            rep.count("obligations:D7")
+            key = "D7:%s:result of %s" % (nm, short)
+            if parent is not None and parent.get("k") in ("Compound", "If", "For", "While", "Do", "ForRange"):
+                rets = [R.key(x.get("e")) for x, _ in R.find(f["body"], lambda x: x.get("k") == "Return")]
+                rep.violation("D7-result-kept", key, R.fn_where(f), {"discarded": R.key(c)[:120], "returned instead": rets[:3],
+                                                                    "example": "a counting functor returned by for_each_pixel(any_image_view, f) is in its initial state, the one returned for the concrete view has counted every pixel"})
+            else:
+                rep.ok("D7-result-kept", key + f["full"][-8:], (parent or {}).get("k"))
 
 
 def factories(rep, fns):
